@@ -242,6 +242,10 @@ def match_known(prop, harness, event, rejects):
         for k, v in (f.get("where") or {}).items():
             if event.get(k) != v:
                 ok = False
+        # where_any: list of alternative field conjunctions (e.g. the exact byte positions per path that are known to fail)
+        alts = f.get("where_any")
+        if ok and alts is not None:
+            ok = any(all(event.get(k) == v for k, v in a.items()) for a in alts)
         if ok:
             return f
     return None
